@@ -1,1 +1,380 @@
-//! (reference model; owner fills this in)
+//! Reference expander for property C07: macros, `\expandafter`, `\noexpand` and nothing else.
+//!
+//! Own transcription of *TeX: The Program*
+//!   §366-§367 expand, §368 (`\expandafter`: "get_token; t:=cur_tok; get_token; if
+//!   cur_cmd>max_command then expand else back_input; cur_tok:=t; back_input"),
+//!   §369 (`\noexpand`: the next token is backed up behind a `dont_expand` marker),
+//!   §358 (a token read behind that marker is interpreted as `\relax` if it is expandable),
+//!   §380 get_x_token / the main loop, with macro calls delegated to `macrocall::macro_call`
+//!   (§389-§399). Nothing here calls code from /repo.
+//!
+//! The input is a stack of tokens, each with a flag "preceded by dont_expand". Readers that do
+//! not expand (`get_token`: the first token of `\expandafter`, the operand of `\noexpand`, macro
+//! arguments) return the plain token, so the flag is lost there exactly as in TeX, where
+//! `cur_tok` is the plain control sequence and `back_input` stores it without marker.
+
+use crate::macrocall::{macro_call, parse_def, render, CallError, MacroDef, Tok, TrimRule};
+use std::collections::HashMap;
+
+#[derive(Clone, Debug)]
+pub enum Meaning {
+    Macro(MacroDef),
+    ExpandAfter,
+    NoExpand,
+    /// `\def`, executed by the main loop (needed for calibration against the repo's tests)
+    Def,
+    /// `\let`, executed by the main loop
+    Let,
+    /// an unexpandable primitive that produces nothing (`\relax`)
+    Relax,
+}
+
+impl Meaning {
+    pub fn expandable(&self) -> bool {
+        matches!(self, Meaning::Macro(_) | Meaning::ExpandAfter | Meaning::NoExpand)
+    }
+}
+
+#[derive(Clone, Copy, Debug, PartialEq, Eq)]
+pub enum NoexpandRule {
+    /// TeX §369/§358: the marker stays in front of the token until the token is next read.
+    Tex,
+    /// Deviation model for finding C07-noexpand-under-expandafter: when `\noexpand` is itself
+    /// expanded on behalf of `\expandafter`, the token is put back without any marker.
+    MarkerLostUnderExpandafter,
+}
+
+#[derive(Clone, Debug, PartialEq, Eq)]
+pub struct MacroEvent {
+    pub name: String,
+    pub args: Vec<String>,
+    pub expansion: String,
+}
+
+/// What reaches the main loop.
+#[derive(Clone, Debug, PartialEq, Eq)]
+pub enum Delivered {
+    /// an unexpandable token
+    Tok(Tok),
+    /// an expandable control sequence whose expansion was suppressed (acts like `\relax`)
+    Unexpanded(Tok),
+}
+
+#[derive(Clone, Debug, PartialEq, Eq)]
+pub enum ExpandError {
+    /// the input leaves the domain in which TeX's behaviour is modelled (runaway argument,
+    /// end of input inside a command, undefined control sequence ...)
+    OutOfDomain(String),
+    Budget,
+}
+
+#[derive(Clone, Copy, PartialEq, Eq)]
+enum Ctx {
+    Main,
+    ExpandAfter,
+}
+
+const FLAG_NONE: u8 = 0;
+const FLAG_MAIN: u8 = 1;
+const FLAG_XA: u8 = 2;
+
+pub struct Expander {
+    pub meanings: HashMap<String, Meaning>,
+    /// reversed: the last element is the next token
+    input: Vec<(Tok, u8)>,
+    pub delivered: Vec<Delivered>,
+    pub events: Vec<MacroEvent>,
+    pub rule: NoexpandRule,
+    pub trim: TrimRule,
+    /// how often a `dont_expand` marker that was created while `\noexpand` was expanded on
+    /// behalf of `\expandafter` later made the main loop treat a token as `\relax`
+    pub marker_mattered: u64,
+    /// deepest recursion of `\expandafter` inside `\expandafter`
+    pub max_xa_depth: u32,
+    pub expansions: u64,
+    pub noexpands: u64,
+    pub expandafters: u64,
+    steps: u64,
+    pub budget: u64,
+}
+
+impl Expander {
+    pub fn new(meanings: HashMap<String, Meaning>, rule: NoexpandRule) -> Expander {
+        Expander {
+            meanings,
+            input: vec![],
+            delivered: vec![],
+            events: vec![],
+            rule,
+            trim: TrimRule::Tex,
+            marker_mattered: 0,
+            max_xa_depth: 0,
+            expansions: 0,
+            noexpands: 0,
+            expandafters: 0,
+            steps: 0,
+            budget: 100_000,
+        }
+    }
+
+    /// Meanings of the primitives this model knows, under their usual names.
+    pub fn primitives() -> HashMap<String, Meaning> {
+        let mut m = HashMap::new();
+        m.insert("expandafter".to_string(), Meaning::ExpandAfter);
+        m.insert("noexpand".to_string(), Meaning::NoExpand);
+        m.insert("def".to_string(), Meaning::Def);
+        m.insert("let".to_string(), Meaning::Let);
+        m.insert("relax".to_string(), Meaning::Relax);
+        m
+    }
+
+    pub fn push_input(&mut self, toks: &[Tok]) {
+        for t in toks.iter().rev() {
+            self.input.push((t.clone(), FLAG_NONE));
+        }
+    }
+
+    fn meaning(&self, t: &Tok) -> Option<&Meaning> {
+        match t {
+            Tok::Cs(n) => self.meanings.get(n),
+            _ => None,
+        }
+    }
+
+    fn is_expandable(&self, t: &Tok) -> bool {
+        self.meaning(t).map(|m| m.expandable()).unwrap_or(false)
+    }
+
+    fn tick(&mut self) -> Result<(), ExpandError> {
+        self.steps += 1;
+        if self.steps > self.budget {
+            return Err(ExpandError::Budget);
+        }
+        Ok(())
+    }
+
+    /// get_token: the plain token, marker dropped.
+    fn get_token(&mut self, what: &str) -> Result<Tok, ExpandError> {
+        match self.input.pop() {
+            Some((t, _)) => Ok(t),
+            None => Err(ExpandError::OutOfDomain(format!("end of input {what}"))),
+        }
+    }
+
+    /// back_input
+    fn back(&mut self, t: Tok, flag: u8) {
+        self.input.push((t, flag));
+    }
+
+    /// §366 expand, for an expandable, unmarked token that has just been read.
+    fn expand(&mut self, t: Tok, ctx: Ctx, xa_depth: u32) -> Result<(), ExpandError> {
+        self.tick()?;
+        let meaning = self.meaning(&t).cloned();
+        match meaning {
+            Some(Meaning::Macro(def)) => {
+                // macro_call reads its arguments with get_token: markers are dropped
+                let view: Vec<Tok> = self.input.iter().rev().map(|(t, _)| t.clone()).collect();
+                let call = macro_call(&def, &view, self.trim).map_err(|e| match e {
+                    CallError::EndOfInput => ExpandError::OutOfDomain("runaway argument".into()),
+                    other => ExpandError::OutOfDomain(format!("{other:?}")),
+                })?;
+                let keep = self.input.len() - call.consumed;
+                self.input.truncate(keep);
+                for x in call.expansion.iter().rev() {
+                    self.input.push((x.clone(), FLAG_NONE));
+                }
+                self.expansions += 1;
+                self.events.push(MacroEvent {
+                    name: render(&[t]),
+                    args: call.args.iter().map(|a| render(a)).collect(),
+                    expansion: render(&call.expansion),
+                });
+                Ok(())
+            }
+            Some(Meaning::ExpandAfter) => {
+                // §368
+                self.expandafters += 1;
+                self.max_xa_depth = self.max_xa_depth.max(xa_depth + 1);
+                let first = self.get_token("after \\expandafter")?;
+                let (second, flag) = match self.input.pop() {
+                    Some(x) => x,
+                    None => {
+                        return Err(ExpandError::OutOfDomain(
+                            "end of input after \\expandafter<token>".into(),
+                        ))
+                    }
+                };
+                // a token behind a dont_expand marker has cur_cmd = relax here (§358): it is
+                // backed up as the plain token, the marker is gone
+                if flag == FLAG_NONE && self.is_expandable(&second) {
+                    self.expand(second, Ctx::ExpandAfter, xa_depth + 1)?;
+                } else {
+                    self.back(second, FLAG_NONE);
+                }
+                self.back(first, FLAG_NONE);
+                Ok(())
+            }
+            Some(Meaning::NoExpand) => {
+                // §369
+                self.noexpands += 1;
+                let x = self.get_token("after \\noexpand")?;
+                let expandable = self.is_expandable(&x);
+                let flag = if !expandable {
+                    FLAG_NONE // §358: only expandable tokens are turned into \relax
+                } else {
+                    match (ctx, self.rule) {
+                        (Ctx::Main, _) => FLAG_MAIN,
+                        (Ctx::ExpandAfter, NoexpandRule::Tex) => FLAG_XA,
+                        (Ctx::ExpandAfter, NoexpandRule::MarkerLostUnderExpandafter) => FLAG_NONE,
+                    }
+                };
+                self.back(x, flag);
+                Ok(())
+            }
+            _ => unreachable!("expand called on an unexpandable token"),
+        }
+    }
+
+    /// The main loop: get_x_token and deliver, until the input is exhausted.
+    pub fn run(&mut self) -> Result<(), ExpandError> {
+        while let Some((t, flag)) = self.input.pop() {
+            self.tick()?;
+            if flag != FLAG_NONE {
+                if flag == FLAG_XA {
+                    self.marker_mattered += 1;
+                }
+                self.delivered.push(Delivered::Unexpanded(t));
+                continue;
+            }
+            match self.meaning(&t).cloned() {
+                Some(m) if m.expandable() => self.expand(t, Ctx::Main, 0)?,
+                Some(Meaning::Def) => {
+                    let name = match self.get_token("after \\def")? {
+                        Tok::Cs(n) => n,
+                        other => {
+                            return Err(ExpandError::OutOfDomain(format!("\\def {other:?}")))
+                        }
+                    };
+                    let view: Vec<Tok> = self.input.iter().rev().map(|(t, _)| t.clone()).collect();
+                    let (d, used) = parse_def(&view)
+                        .map_err(|e| ExpandError::OutOfDomain(format!("{e:?}")))?;
+                    let keep = self.input.len() - used;
+                    self.input.truncate(keep);
+                    self.meanings.insert(name, Meaning::Macro(d));
+                }
+                Some(Meaning::Let) => {
+                    // §1221: \let<cs><optional spaces><optional =><one optional space><token>
+                    let name = match self.get_token("after \\let")? {
+                        Tok::Cs(n) => n,
+                        other => {
+                            return Err(ExpandError::OutOfDomain(format!("\\let {other:?}")))
+                        }
+                    };
+                    let mut x = self.get_token("in \\let")?;
+                    while x == Tok::Space {
+                        x = self.get_token("in \\let")?;
+                    }
+                    if x == Tok::Ch('=') {
+                        x = self.get_token("in \\let")?;
+                        if x == Tok::Space {
+                            x = self.get_token("in \\let")?;
+                        }
+                    }
+                    match self.meaning(&x).cloned() {
+                        Some(m) => {
+                            self.meanings.insert(name, m);
+                        }
+                        None => {
+                            return Err(ExpandError::OutOfDomain(
+                                "\\let to a character or undefined token".into(),
+                            ))
+                        }
+                    }
+                }
+                Some(Meaning::Relax) => {}
+                _ => self.delivered.push(Delivered::Tok(t)),
+            }
+        }
+        Ok(())
+    }
+}
+
+/// Text form of what was delivered, in the harness's output convention: characters as
+/// themselves, suppressed control sequences as `\name `, braces produce nothing (they open and
+/// close groups). Returns `None` when a `}` arrives at group depth 0 (the real VM stops there).
+pub fn delivered_text(d: &[Delivered]) -> Option<String> {
+    let mut s = String::new();
+    let mut depth = 0i64;
+    for x in d {
+        match x {
+            Delivered::Unexpanded(t) => s.push_str(&render(std::slice::from_ref(t))),
+            Delivered::Tok(Tok::Begin) => depth += 1,
+            Delivered::Tok(Tok::End) => {
+                depth -= 1;
+                if depth < 0 {
+                    return None;
+                }
+            }
+            Delivered::Tok(t @ Tok::Cs(_)) => s.push_str(&render(std::slice::from_ref(t))),
+            Delivered::Tok(Tok::Ch(c)) | Delivered::Tok(Tok::Active(c)) => s.push(*c),
+            Delivered::Tok(Tok::Space) => s.push(' '),
+            Delivered::Tok(Tok::Param) => s.push('#'),
+        }
+    }
+    Some(s)
+}
+
+/// Token form of what was delivered (for calibration against token-list expectations).
+pub fn delivered_tokens(d: &[Delivered]) -> Vec<Tok> {
+    d.iter()
+        .map(|x| match x {
+            Delivered::Tok(t) | Delivered::Unexpanded(t) => t.clone(),
+        })
+        .collect()
+}
+
+#[cfg(test)]
+mod tests {
+    use super::*;
+    use crate::macrocall::lex_line;
+
+    fn run(src: &str, rule: NoexpandRule) -> (String, u64) {
+        let mut e = Expander::new(Expander::primitives(), rule);
+        e.push_input(&lex_line(src));
+        e.run().unwrap();
+        (delivered_text(&e.delivered).unwrap(), e.marker_mattered)
+    }
+
+    #[test]
+    fn expandafter_orders() {
+        let pre = r"\def\a{A}\def\b{B}\def\c{C}\def\m#1{[#1]}";
+        assert_eq!(run(&format!(r"{pre}\expandafter\m\a"), NoexpandRule::Tex).0, "[A]");
+        assert_eq!(run(&format!(r"{pre}\m\a"), NoexpandRule::Tex).0, "[A]");
+        assert_eq!(
+            run(&format!(r"{pre}\expandafter\expandafter\expandafter\m\expandafter\m\a"), NoexpandRule::Tex).0,
+            "[[]A]" // \a -> A, then the inner \m takes A: [A], then the outer \m takes "["
+        );
+    }
+
+    #[test]
+    fn noexpand_marker() {
+        let pre = r"\def\a{Hello}\def\m#1{[#1]}";
+        // marker survives behind X: \a acts as \relax (TeX §358/§369)
+        assert_eq!(
+            run(&format!(r"{pre}\expandafter X\noexpand\a|"), NoexpandRule::Tex),
+            (r"X\a |".to_string(), 1)
+        );
+        assert_eq!(
+            run(&format!(r"{pre}\expandafter X\noexpand\a|"), NoexpandRule::MarkerLostUnderExpandafter),
+            ("XHello|".to_string(), 0)
+        );
+        // absorbed as a macro argument: the marker is gone in both
+        assert_eq!(run(&format!(r"{pre}\expandafter\m\noexpand\a|"), NoexpandRule::Tex).0, "[Hello]|");
+        // a second \expandafter reads the marked token and backs it up unmarked
+        assert_eq!(
+            run(&format!(r"{pre}\expandafter\expandafter\expandafter X\noexpand\a|"), NoexpandRule::Tex).0,
+            "XHello|"
+        );
+        assert_eq!(run(&format!(r"{pre}\noexpand\a\a|"), NoexpandRule::Tex).0, r"\a Hello|");
+    }
+}
